@@ -69,9 +69,12 @@ def run(pid, tier, seed, replay, cfg, repo, env, scratch, t0):
     # module file pointing at the repository under test
     gomod = open(os.path.join(HARNESS, "go.mod")).read()
     gomod = gomod.replace("=> /repo", "=> " + repo)
-    modfile = os.path.join(scratch, "go.mod")
+    # (kept in its own directory: the shards' working directories must not lie inside a
+    # module, or every `go list` run by go/importer from there resolves that module first)
+    os.makedirs(os.path.join(scratch, "mod"))
+    modfile = os.path.join(scratch, "mod", "go.mod")
     open(modfile, "w").write(gomod)
-    shutil.copy(os.path.join(HARNESS, "go.sum"), os.path.join(scratch, "go.sum"))
+    shutil.copy(os.path.join(HARNESS, "go.sum"), os.path.join(scratch, "mod", "go.sum"))
 
     # optional generator step run before the build (e.g. reference file derived from table keys)
     if cfg.get("pre_cmd"):
